@@ -626,6 +626,31 @@ def expected_snapshot(schema, ci, m, out, op):
                CN if is_recursive(schema, ci) else keys(include_default_values=True)])
 
 
+def top_selection(schema, ci, m):
+    """what the property says about the oneof groups of m itself, read from the object (not from a clone): per group
+    (which_one_of, tuple of 'member is readable')"""
+    import betterproto as bp
+    c = schema.classes[ci]
+    out = []
+    for g in range(c.ngroups):
+        try:
+            name = bp.which_one_of(m, f"g{g}")[0]
+        except Exception as e:
+            name = f"<raises {type(e).__name__}>"
+        reads = []
+        for f in c.fields:
+            if f.group == g:
+                try:
+                    getattr(m, f.name)
+                    reads.append((f.name, True))
+                except AttributeError:
+                    reads.append((f.name, False))
+                except Exception as e:
+                    reads.append((f.name, type(e).__name__))
+        out.append((name, tuple(reads)))
+    return out
+
+
 def run_history(schema, ci, ops, ctx, count=True, rng=None):
     """executes ops on a real object starting from Cls(); returns (coq op literals, expected snapshots, oracle problems, selections)
     problems: list of (step, cls, text); the history is cut after an op that raises (expected CE EOther)"""
@@ -633,6 +658,7 @@ def run_history(schema, ci, ops, ctx, count=True, rng=None):
     m = c.py()
     exp = [None] * c.ngroups
     coq_ops, snaps, problems, sels = [], [], [], []
+    left_behind = []     # originals of copy / deepcopy / pickle: the history goes on with the copy, the original must keep its selections
     for step, op in enumerate(ops):
         try:
             lit = coq_op7(schema, ci, op)
@@ -649,6 +675,7 @@ def run_history(schema, ci, ops, ctx, count=True, rng=None):
             new_exp = track(schema, ci, exp, op)
         except Exception:
             new_exp = ["?"] * c.ngroups
+        before = m
         try:
             m, out = apply7(schema, ci, m, op)
         except Exception as e:
@@ -657,6 +684,25 @@ def run_history(schema, ci, ops, ctx, count=True, rng=None):
             snaps.append(ce("EOther"))
             break
         exp = new_exp
+        if op["k"] in ("copy", "deepcopy", "pickle") and m is not before:
+            try:
+                left_behind.append((step, op["k"], before, top_selection(schema, ci, before)))
+            except Exception:
+                pass
+        else:
+            # an operation on the copy must not change what the original reports for its own oneof groups (a shallow copy
+            # shares nested messages with the original, never the selection table or the member slots)
+            for s0, kind, orig, sel0 in left_behind:
+                try:
+                    now = top_selection(schema, ci, orig)
+                except Exception as e:
+                    now = f"<raises {type(e).__name__}>"
+                if now != sel0:
+                    problems.append((step, "copy-alias", f"after {kind} at step {s0}, operation {op['k']} on the copy changed the ORIGINAL's oneof "
+                                     f"state: was {sel0}, now {now}"))
+                    break
+            if count and left_behind:
+                ctx.count("left_behind_originals_rechecked", len(left_behind))
         if count:
             ctx.count("op:" + op["k"] + (":inst" if op.get("inst") else "") + (":nested" if op.get("path") else ""))
         try:
